@@ -7,6 +7,8 @@ import (
 	"testing"
 	"time"
 
+	"github.com/rs/zerolog"
+
 	"verif/harness/vcore"
 )
 
@@ -30,6 +32,10 @@ func TestWorker(t *testing.T) {
 		b, _ := json.Marshal(e.meta)
 		fmt.Printf("META %s\n", b)
 		return
+	}
+	// the repository logs every step at info level; a worker's output is only kept for harness errors
+	if os.Getenv("VERIF_LOG") == "" {
+		zerolog.SetGlobalLevel(zerolog.Disabled)
 	}
 	c := vcore.NewCtxFromEnv(id)
 	c.SetLevel(e.meta.Level)
